@@ -9,8 +9,16 @@ mod c14;
 use serde_json::json;
 use vutil::{Args, Collector};
 
+static MAX_LEN: std::sync::OnceLock<Option<usize>> = std::sync::OnceLock::new();
+
+/// `--max-len N` shrinks the enumeration (used for the Miri pass).
+pub fn max_len_override() -> Option<usize> {
+    *MAX_LEN.get().unwrap_or(&None)
+}
+
 fn main() {
     let args = Args::parse();
+    let _ = MAX_LEN.set(args.get("max-len").and_then(|s| s.parse().ok()));
     vutil::quiet_panics();
     let prop = args.str("prop", "C12");
     let seed = args.u64("seed", 1);
